@@ -6,6 +6,7 @@ evaluated on the read-back graph (decision-graph semantics; term reconstruction)
 import Rsbdd.Driver.CliCases
 import Rsbdd.Model.Dot
 import Rsbdd.Model.DotBdd
+import Rsbdd.Model.DotTree
 
 namespace Rsbdd
 namespace Driver
@@ -276,9 +277,43 @@ def rebuild (nodes : List (String × String)) (edges : List (String × String ×
 
 def unhexStr (s : String) : Option String := (unhex s).bind String.fromUTF8?
 
-/-- `tree|ast|names (hexname:id,…)|nodes (id=hexlabel,…)|edges (src>dst:hexlabel,…)` -/
+/-- the raw text of a parse-tree export against the byte model (`DotText.treeDotText`) and the Lean reader -/
+def treeTie (rawHex : String) (nameOf : Nat → String) (g : Option TreeGraph)
+    (ns : List (String × String)) (es : List (String × String × String)) : Option String × Option String :=
+  match unhex rawHex, g with
+  | some bytes, some g =>
+    match String.fromUTF8? bytes with
+    | none => (some "tree-model.not-utf8", none)
+    | some s =>
+      let real := s.toList
+      let tie := if DotText.treeDotText nameOf g == real then "tree-model.identical" else "tree-model.differs"
+      match DotText.readDot real with
+      | none => (some "tree-reader.refused", none)
+      | some tg =>
+        let rid := fun (id : List Char) => String.ofList (id.drop 2)
+        let ns' := tg.nodes.map (fun n => (rid n.1, hexOf (String.ofList n.2)))
+        let es' := tg.edges.map (fun e => (rid e.1, rid e.2.1, hexOf (String.ofList e.2.2)))
+        -- every label must be decoded by the decoders of Thm/C14P
+        let undecoded := tg.nodes.any (fun n => (DotText.readHead n.2).isNone) || tg.edges.any (fun e => (DotText.readELabel e.2.2).isNone)
+        if ns' == ns && es' == es && !undecoded then (some tie, none)
+        else (some tie, some (if undecoded then "a label of the parse-tree export is not decoded by readHead / readELabel" else "the two readers of the DOT text disagree"))
+  | _, _ => (none, none)
+
+/-- `tree|ast|names (hexname:id,…)|nodes (id=hexlabel,…)|edges (src>dst:hexlabel,…)[|raw text]` -/
 def handleC14Tree (fields : List String) : Verdict :=
   match fields with
+  | [ast, names, ns, es, raw] =>
+    let v := handleC14Tree [ast, names, ns, es]
+    if v.bad || ns == "PANIC-OR-UNREADABLE" then v else
+    match parseFormula ast, parseVarTable names, parseRNodes ns, parseREdges es with
+    | some f, some names, some ns, some es =>
+      let names' := names.filterMap (fun v => (unhexStr v.1).map (fun n => (n, v.2)))
+      let nameOf := fun (v : Nat) => ((names'.find? (fun x => x.2 == v)).map (·.1)).getD "?"
+      let (tie, dis) := treeTie raw nameOf (parseTree (unhexRefs f)) ns es
+      match dis with
+      | some m => { v with modelOk := false, modelOut := v.modelOut ++ " [" ++ m ++ "]", info := tie }
+      | none => { v with info := tie }
+    | _, _, _, _ => v
   | [_, _, "PANIC-OR-UNREADABLE", _] =>
     { modelOk := false, modelOut := "a DOT graph",
       oracle := some "the parse-tree export panicked, or what was written is not a DOT graph that can be read back (text after the closing brace, a malformed line)" }
@@ -313,7 +348,7 @@ def handleC14Tree (fields : List String) : Verdict :=
           | _ => some s!"the exported parse tree has {roots.length} roots"
       { modelOk, modelOut := s!"{mNodes.length} nodes, {mEdges.length} edges", oracle := o, nontrivial := ns.length > 2 }
     | _, _, _, _ => Verdict.badLine "unreadable tree line"
-  | _ => Verdict.badLine "tree line needs four fields"
+  | _ => Verdict.badLine "tree line needs four or five fields"
 where
   unhexRefs : Formula → Formula := fun f => go f
   go : Formula → Formula
